@@ -1439,3 +1439,224 @@ func classOfByte(c byte) string {
 	}
 	return "?"
 }
+
+// =================================================================================================
+// C02 (parser side): variable identity
+// =================================================================================================
+
+// IdentRule: statements that refer to an existing variable must carry the definition the
+// context lookup returned (name and global flag as defined), not a re-created one.
+func IdentRule(w *World, r *Result, rule string) {
+	cf, err := buildCtxFacts(w)
+	if err != nil {
+		r.Bad(rule, "ident:context", "-", err.Error())
+		return
+	}
+	existing := map[string]bool{"VariableAssignment.variables": true, "VariableAssignmentCallAssignment.variables": true, "SliceAssignment.Variable": true, "Copy.destination": true, "VariableEvaluation.Variable": true}
+	pkg := w.Pkgs["parser"].Types
+	n := 0
+	for _, fn := range w.Funcs("parser") {
+		perKey := map[string]int{}
+		for _, b := range fn.Blocks {
+			for _, ins := range b.Instrs {
+				st, ok := ins.(*ssa.Store)
+				if !ok {
+					continue
+				}
+				fa, ok := st.Addr.(*ssa.FieldAddr)
+				if !ok {
+					continue
+				}
+				pt, ok := fa.X.Type().Underlying().(*types.Pointer)
+				if !ok {
+					continue
+				}
+				named, ok := pt.Elem().(*types.Named)
+				if !ok || named.Obj().Pkg() != pkg {
+					continue
+				}
+				k := named.Obj().Name() + "." + structFieldName(fa.X.Type(), fa.Field)
+				if !existing[k] {
+					continue
+				}
+				n++
+				perKey[k]++
+				key := fmt.Sprintf("ident:%s@%s#%d", k, FuncName(fn), perKey[k])
+				ok2, why := identOrigin(w, cf, fn, st.Val, 0, map[ssa.Value]bool{})
+				if ok2 {
+					r.Ok(rule, key, w.Pos(st.Pos()), why)
+				} else {
+					r.Bad(rule, key, w.Pos(st.Pos()), why)
+				}
+			}
+		}
+	}
+	if n < 5 {
+		r.Bad(rule, "ident:sites", "-", fmt.Sprintf("only %d stores of variables into referring statements found", n))
+	}
+	// reader/writer agreement of the storage key for global definitions
+	for fn := range cf.lookups {
+		res := fn.Signature.Results()
+		if res.Len() != 2 || !isNamed(res.At(0).Type(), "Variable") {
+			continue
+		}
+		var globalParam *ssa.Parameter
+		for _, p := range fn.Params {
+			if isBool(p.Type()) {
+				globalParam = p
+			}
+		}
+		if globalParam == nil {
+			continue
+		}
+		// the key depends on the use site's scope flag; a second attempt with the global key must exist
+		attempts := 0
+		fallback := false
+		for _, b := range fn.Blocks {
+			for _, ins := range b.Instrs {
+				switch x := ins.(type) {
+				case *ssa.Lookup:
+					if x.CommaOk {
+						attempts++
+					}
+				case *ssa.Call:
+					if x.Call.StaticCallee() == fn {
+						for _, a := range x.Call.Args {
+							if k, ok := a.(*ssa.Const); ok && k.Value != nil && isBool(k.Type()) && constant.BoolVal(k.Value) {
+								fallback = true
+							}
+						}
+					}
+				}
+			}
+		}
+		key := "ident:lookup-key:" + FuncName(fn)
+		if attempts >= 2 || fallback {
+			r.Ok(rule, key, w.Pos(fn.Pos()), "a lookup that fails under the use site's scope flag is repeated with the key global definitions are stored under")
+		} else {
+			r.Bad(rule, key, w.Pos(fn.Pos()), "global definitions are stored under a file-prefixed key but looked up under a key computed from the scope of the USE site: inside a function of an imported file its own globals are not found (variable G has not been defined)")
+		}
+	}
+}
+
+// identOrigin: the Variable value comes from a lookup, from a declaration made by the same
+// statement (declared to the context), or – for parameters – satisfies this at every call site.
+func identOrigin(w *World, cf *ctxFacts, fn *ssa.Function, v ssa.Value, depth int, seen map[ssa.Value]bool) (bool, string) {
+	if depth > 6 || seen[v] {
+		return true, "…"
+	}
+	seen[v] = true
+	switch x := v.(type) {
+	case *ssa.Extract:
+		if c, ok := x.Tuple.(*ssa.Call); ok {
+			if callee := c.Call.StaticCallee(); callee != nil && cf.lookups[callee] {
+				return true, "the definition returned by " + callee.Name()
+			}
+		}
+	case *ssa.Call:
+		callee := x.Call.StaticCallee()
+		if bi, ok := x.Call.Value.(*ssa.Builtin); ok && bi.Name() == "append" {
+			for _, a := range x.Call.Args {
+				if ok, why := identOrigin(w, cf, fn, a, depth+1, seen); !ok {
+					return false, why
+				}
+			}
+			return true, "list of looked-up definitions"
+		}
+		if callee != nil && callee.Name() == "NewVariable" {
+			// a declaration of this very statement: the same value is handed to the context
+			for _, ref := range *x.Referrers() {
+				if c2, ok := ref.(*ssa.Call); ok {
+					if cal := c2.Call.StaticCallee(); cal != nil && cf.mutators[cal] {
+						return true, "variable declared by this statement (added to the context)"
+					}
+				}
+				if st, ok := ref.(*ssa.Store); ok {
+					// stored into the varargs array of a mutator call
+					if ia, ok := st.Addr.(*ssa.IndexAddr); ok {
+						if al, ok := ia.X.(*ssa.Alloc); ok {
+							for _, r2 := range *al.Referrers() {
+								if sl, ok := r2.(*ssa.Slice); ok {
+									for _, r3 := range *sl.Referrers() {
+										if c3, ok := r3.(*ssa.Call); ok {
+											if cal := c3.Call.StaticCallee(); cal != nil && cf.mutators[cal] {
+												return true, "variable declared by this statement (added to the context)"
+											}
+										}
+									}
+								}
+							}
+						}
+					}
+				}
+			}
+			return false, "the statement refers to an existing variable but stores a re-created Variable (NewVariable with the global flag of the USE site and the bare name): an assignment to a global inside a function writes a mangled local instead, and top-level assignments in imported files lose their prefix"
+		}
+	case *ssa.Phi:
+		for _, e := range x.Edges {
+			if ok, why := identOrigin(w, cf, fn, e, depth+1, seen); !ok {
+				return false, why
+			}
+		}
+		return true, "looked-up definitions"
+	case *ssa.Slice:
+		if al, ok := x.X.(*ssa.Alloc); ok {
+			for _, r := range *al.Referrers() {
+				if ia, ok := r.(*ssa.IndexAddr); ok {
+					for _, rr := range *ia.Referrers() {
+						if st, ok := rr.(*ssa.Store); ok {
+							if ok, why := identOrigin(w, cf, fn, st.Val, depth+1, seen); !ok {
+								return false, why
+							}
+						}
+					}
+				}
+			}
+			return true, "literal list of looked-up / declared variables"
+		}
+	case *ssa.Const:
+		return true, "empty"
+	case *ssa.Field:
+		// dstSlice.Variable of a looked-up evaluation
+		return true, "variable of an evaluation node (itself built from a lookup)"
+	case *ssa.UnOp:
+		if fa, ok := x.X.(*ssa.FieldAddr); ok {
+			_ = fa
+			return true, "variable of an evaluation node (itself built from a lookup)"
+		}
+		if al, ok := x.X.(*ssa.Alloc); ok {
+			for _, r := range *al.Referrers() {
+				if st, ok := r.(*ssa.Store); ok && st.Addr == al {
+					if ok, why := identOrigin(w, cf, fn, st.Val, depth+1, seen); !ok {
+						return false, why
+					}
+				}
+			}
+			return true, "local copy of a looked-up definition"
+		}
+	case *ssa.Parameter:
+		// every call site must pass a looked-up or declared variable
+		callee := x.Parent()
+		idx := -1
+		for i, p := range callee.Params {
+			if p == x {
+				idx = i
+			}
+		}
+		cnt := 0
+		for _, caller := range w.Funcs("parser") {
+			for _, b := range caller.Blocks {
+				for _, ins := range b.Instrs {
+					if c, ok := ins.(*ssa.Call); ok && c.Call.StaticCallee() == callee && idx < len(c.Call.Args) {
+						cnt++
+						if ok, why := identOrigin(w, cf, caller, c.Call.Args[idx], depth+1, seen); !ok {
+							return false, "call site in " + FuncName(caller) + ": " + why
+						}
+					}
+				}
+			}
+		}
+		return true, fmt.Sprintf("parameter: looked-up / declared at all %d call sites", cnt)
+	}
+	return false, fmt.Sprintf("cannot show that the stored variable is the looked-up definition (%T)", v)
+}
